@@ -145,6 +145,50 @@ Proof.
   destruct (bind xs vs) eqn:B; [|discriminate]. cbn. f_equal. eauto.
 Qed.
 
+
+(* ---------- progress: a linearly well-typed statement of the fragment does not get stuck ---------- *)
+Lemma lookup_of_in (e : env) x : In x (env_ids e) -> exists v, AxSem.lookup e x = Some v.
+Proof.
+  induction e as [|[y w] e IH]; cbn; [tauto|]. intros [E|H].
+  - rewrite E, N.eqb_refl. eauto.
+  - destruct (N.eqb (idn y) x); eauto.
+Qed.
+Lemma has_ext_lookup_int c e st sp a : rel c e st sp -> has_ext c a = true -> exists x, lookup_int e a = Some x.
+Proof.
+  intros R H. unfold has_ext, has in H. destruct (lookup_b c (idn a)) as [b|] eqn:L; [|discriminate].
+  apply lookup_b_Some in L as [Hin Hid].
+  assert (I : In (idn a) (env_ids e)).
+  { rewrite (rel_ids _ _ _ _ R), <- Hid. now apply In_ids. }
+  destruct (lookup_of_in e _ I) as (v & Lv). destruct (lookup_nth e _ _ Lv) as (i & y & Hi & _).
+  destruct (rel_vals _ _ _ _ R i y v Hi) as (z & _ & -> & _). exists z. unfold lookup_int, lookup_id. now rewrite Lv.
+Qed.
+Lemma has_lookup_id c e st sp a k t : rel c e st sp -> has c a k t = true -> exists v, lookup_id e a = Some v.
+Proof.
+  intros R H. unfold has in H. destruct (lookup_b c (idn a)) as [b|] eqn:L; [|discriminate].
+  apply lookup_b_Some in L as [Hin Hid]. apply lookup_of_in. rewrite (rel_ids _ _ _ _ R), <- Hid. now apply In_ids.
+Qed.
+Lemma lookups_total (e : env) : forall xs, (forall x, In x xs -> exists v, lookup_id e x = Some v) ->
+  exists vs, lookups e xs = Some vs /\ List.length vs = List.length xs.
+Proof.
+  induction xs as [|x xs IH]; intros H; cbn [lookups]; [exists []; auto|].
+  destruct (H x (or_introl eq_refl)) as (v & ->). destruct IH as (vs & -> & L); [intros; apply H; now right|].
+  exists (v :: vs). cbn. auto.
+Qed.
+Lemma bind_total : forall (xs : list ident) (vs : list value), List.length xs = List.length vs -> exists e', bind xs vs = Some e'.
+Proof.
+  induction xs as [|x xs IH]; intros [|v vs] H; cbn in H; try discriminate; cbn [bind]; [eauto|].
+  destruct (IH vs) as (e' & ->); [lia|]. eauto.
+Qed.
+Lemma lookup_label_find_def p l ps :
+  lookup_label (sigs_of p) l = Some ps -> exists d, find_def p l = Some d /\ dctx d = ps.
+Proof.
+  unfold lookup_label, sigs_of, find_def; cbn [sg_labels]. induction (pdefs p) as [|d r IH]; cbn [map find]; [discriminate|].
+  cbn [fst]. destruct (ident_eqb (dname d) l); [|exact IH]. cbn. intros E; inversion E. eauto.
+Qed.
+Definition not_oof (o : obs) : Prop := snd o <> OOutOfFuel.
+Lemma good_not_oof o : good o -> not_oof o.
+Proof. intros [(z & H)|(z & H)] E; congruence. Qed.
+
 Section Main.
 Variable im : image.
 Variable p : prog.
@@ -165,18 +209,20 @@ Lemma sim_exec : forall fuel s c e ot st pc code lc lc',
   stmt_int s = true -> ctx_int c = true -> lin_check (sigs_of p) c s = true ->
   xcs (ptypes p) s c lc = Ok (code, lc') -> code_at im pc code -> labels_at_nh im pc code ->
   rel c e st sp -> outer_ok st sp -> out st = ot ->
-  good (exec_linear fuel p e s ot) -> finishes im pc st (exec_linear fuel p e s ot).
+  not_oof (exec_linear fuel p e s ot) -> finishes im pc st (exec_linear fuel p e s ot).
 Proof.
   induction fuel as [|fuel IH]; intros s c e ot st pc code lc lc' SI CI LC CS CA LA R OK OUT G.
-  { exfalso. exact (not_good_fuel _ G). }
+  { exfalso. apply G. reflexivity. }
   pose proof (rel_frame _ _ _ _ R) as F. pose proof (proj2 F) as SPOK.
   destruct s as [re next|label args|v t tag args next|v t cls|v t env cls next|v tag t args|n v next|a op b v next|nl v next|so a b thenc elsec|v];
     cbn [stmt_int] in SI; try discriminate; cbn [exec_linear] in G |- *.
   - (* Substitute *)
     apply andb_true_iff in SI as [SI1 SI2].
-    cbn [lin_check] in LC. apply andb_true_iff in LC as [_ LC]. apply andb_true_iff in LC as [_ LC].
-    destruct (lookups e (map snd re)) as [vs|] eqn:LK; [|exfalso; exact (not_good_stuck _ _ G)].
-    destruct (bind (map (fun r => bvar (fst r)) re) vs) as [e'|] eqn:BD; [|exfalso; exact (not_good_stuck _ _ G)].
+    cbn [lin_check] in LC. apply andb_true_iff in LC as [_ LC]. apply andb_true_iff in LC as [LCs LC].
+    destruct (lookups_total e (map snd re)) as (vs & LK & LV).
+    { intros x Hx. apply in_map_iff in Hx as (q & <- & Hq). rewrite forallb_forall in LCs. eapply has_lookup_id; eauto. }
+    destruct (bind_total (map (fun r : binding * ident => bvar (fst r)) re) vs) as (e' & BD); [rewrite LV, !map_length; reflexivity|].
+    rewrite LK, BD in G |- *.
     destruct (cs_substitute _ _ _ _ _ _ _ CS) as (c1 & lc1 & c2 & c3 & WC & CE & NX & ->).
     assert (NDn : NoDup (new_ids re)) by (rewrite <- ids_new; exact (lin_nodup _ _ _ LC)).
     destruct (sim_substitute im c e st sp re vs e' c1 lc lc1 c2 R CI NDn LK BD WC CE) as (-> & -> & s' & E & R' & FE).
@@ -187,8 +233,12 @@ Proof.
     + eapply frame_eq_outer; eauto.
     + destruct FE as (_ & _ & O & _). congruence.
   - (* Call *)
-    destruct (find_def p label) as [d|] eqn:FD; [|exfalso; exact (not_good_stuck _ _ G)].
-    destruct (bind (vars (dctx d)) (map snd e)) as [e'|] eqn:BD; [|exfalso; exact (not_good_stuck _ _ G)].
+    cbn [lin_check] in LC. apply andb_true_iff in LC as [_ LC].
+    destruct (lookup_label (sigs_of p) label) as [ps|] eqn:LL; [|discriminate].
+    destruct (lookup_label_find_def p label ps LL) as (d & FD & <-).
+    destruct (bind_total (vars (dctx d)) (map snd e)) as (e' & BD).
+    { apply sig_match_iff, same_kt_length in LC. unfold vars. rewrite !map_length, (rel_length _ _ _ _ R). auto. }
+    rewrite FD, BD in G |- *.
     unfold find_def in FD. apply find_some in FD as [IN EQ]. apply ident_eqb_eq in EQ. subst label.
     destruct (cs_call _ _ _ _ _ _ _ CS) as (-> & _).
     destruct (DEFS d IN) as (pcd & lcd & cd & lcd' & FL & CL & CSd & CAd & LAd).
@@ -212,9 +262,11 @@ Proof.
     + eapply frame_eq_outer; eauto.
     + destruct FE as (_ & _ & O & _). congruence.
   - (* Op *)
-    cbn [lin_check] in LC. apply andb_true_iff in LC as [_ LC]. apply andb_true_iff in LC as [_ LC].
-    destruct (lookup_int e a) as [x|] eqn:LA1; [|exfalso; exact (not_good_stuck _ _ G)].
-    destruct (lookup_int e b) as [y|] eqn:LB1; [|exfalso; exact (not_good_stuck _ _ G)].
+    cbn [lin_check] in LC. apply andb_true_iff in LC as [_ LC]. apply andb_true_iff in LC as [LCo LC].
+    apply andb_true_iff in LCo as [HA HB].
+    destruct (has_ext_lookup_int c e st sp a R HA) as (x & LA1).
+    destruct (has_ext_lookup_int c e st sp b R HB) as (y & LB1).
+    rewrite LA1, LB1 in G |- *.
     destruct (cs_op _ _ _ _ _ _ _ _ _ _ CS) as (tv & ta & tb & c2 & TV & TA & TB & NX & ->).
     apply code_at_app in CA as [CA1 CA2]. apply labels_at_nh_app in LA as [_ LA2].
     destruct (eval_op op x y) as [z|w] eqn:EV.
@@ -227,8 +279,9 @@ Proof.
     + destruct (sim_op_undef im c e st sp a op b v x y w tv ta tb R (lin_nodup _ _ _ LC) LA1 LB1 EV TV TA TB) as (s' & E & O).
       rewrite <- OUT, <- O. eapply exec_undef_finishes; eauto.
   - (* PrintI64 *)
-    cbn [lin_check] in LC. apply andb_true_iff in LC as [_ LC]. apply andb_true_iff in LC as [_ LC].
-    destruct (lookup_int e v) as [z|] eqn:LV; [|exfalso; exact (not_good_stuck _ _ G)].
+    cbn [lin_check] in LC. apply andb_true_iff in LC as [_ LC]. apply andb_true_iff in LC as [HV LC].
+    destruct (has_ext_lookup_int c e st sp v R HV) as (z & LV).
+    rewrite LV in G |- *.
     destruct (cs_print _ _ _ _ _ _ _ _ CS) as (tv & c2 & TV & NX & ->).
     destruct (sim_print im c e st sp nl v z tv R CI LV TV) as (s' & E & R' & O & AE).
     apply code_at_app in CA as [CA1 CA2]. apply labels_at_nh_app in LA as [_ LA2].
@@ -239,9 +292,11 @@ Proof.
   - (* IfC *)
     apply andb_true_iff in SI as [SI1 SI2].
     cbn [lin_check] in LC. apply andb_true_iff in LC as [_ LC].
-    apply andb_true_iff in LC as [LC LCe]. apply andb_true_iff in LC as [_ LCt].
-    destruct (lookup_int e a) as [x|] eqn:LA1; [|exfalso; exact (not_good_stuck _ _ G)].
-    destruct (match b with Some b0 => lookup_int e b0 | None => Some 0 end) as [y|] eqn:LB1; [|exfalso; exact (not_good_stuck _ _ G)].
+    apply andb_true_iff in LC as [LC LCe]. apply andb_true_iff in LC as [LCo LCt]. apply andb_true_iff in LCo as [HA HB].
+    destruct (has_ext_lookup_int c e st sp a R HA) as (x & LA1).
+    assert (LB1 : exists y, match b with Some b0 => lookup_int e b0 | None => Some 0 end = Some y).
+    { destruct b as [b|]; [|eauto]. exact (has_ext_lookup_int c e st sp b R HB). }
+    destruct LB1 as (y & LB1). rewrite LA1, LB1 in G |- *.
     destruct (sim_ifc im c e st sp so a b x y (ptypes p) thenc elsec lc code lc' pc R LA1 LB1 CS CA LA)
       as (c1 & c2 & lc2 & c3 & s' & -> & EL & TH & X & R' & FE).
     assert (OK' : outer_ok s' sp) by (eapply frame_eq_outer; eauto).
@@ -254,7 +309,9 @@ Proof.
     + eapply (IH thenc c e ot s'); eauto.
     + eapply (IH elsec c e ot s'); eauto.
   - (* Exit *)
-    destruct (lookup_int e v) as [z|] eqn:LV; [|exfalso; exact (not_good_stuck _ _ G)].
+    cbn [lin_check] in LC. apply andb_true_iff in LC as [_ HV].
+    destruct (has_ext_lookup_int c e st sp v R HV) as (z & LV).
+    rewrite LV in G |- *.
     destruct (cs_exit _ _ _ _ _ _ CS) as (tv & TV & -> & _).
     destruct (sim_exit_mov im c e st sp v z tv R LV TV) as (s' & E & RAX & F' & FE).
     apply code_at_app in CA as [CA1 CA2]. apply code_at_cons in CA2 as [CJ _].
